@@ -1,5 +1,6 @@
 import PharmpyModel.Core.Sexp
 import PharmpyModel.C14.Model
+import PharmpyModel.C14.Admid
 open Pharmpy Pharmpy.C14
 
 /-
@@ -7,6 +8,8 @@ open Pharmpy Pharmpy.C14
     request  (op cfg rows)
       cfg  = (hasDose hasEvid hasSs hasMdv hasAddl)            each 0/1
       rows = ((id time amt evid ss addl ii mdv) ...)           rationals as n or n/d
+    request  (admid|cmt acfg erows)   acfg = (hasCmt hasAdm doseCmt central|none other|none ((cmt admid) ...)),
+                                      erows = ((id evid cmt adm) ...)
     ops: doseid doseidloop walk regular notie tad expand mdv evid obs doses nobs nobsper
 -/
 
@@ -46,8 +49,40 @@ def rows? (x : Sexp) : Option (List Rec) := do
 
 def ints (xs : List Int) : Sexp := .list (xs.map Sexp.ofInt)
 
+def optNat? : Sexp → Option (Option Nat)
+  | .atom "none" => some none
+  | .atom s => s.toNat?.map some
+  | _ => none
+
+def pair? : Sexp → Option (Nat × Nat)
+  | .list [.atom a, .atom b] => do some (← a.toNat?, ← b.toNat?)
+  | _ => none
+
+/-- (hasCmt hasAdm doseCmt central other ((k v) ...)) -/
+def acfg? : Sexp → Option ACfg
+  | .list [a, b, .atom dc, ce, ot, .list rm] => do
+    some ⟨← bool01? a, ← bool01? b, ← dc.toNat?, ← optNat? ce, ← optNat? ot, ← rm.mapM pair?⟩
+  | _ => none
+
+/-- (id evid cmt adm) -/
+def erec? : Sexp → Option ERec
+  | .list [.atom i, .atom e, .atom c, .atom a] => do
+    some ⟨← i.toInt?, ← e.toNat?, ← c.toNat?, ← a.toNat?⟩
+  | _ => none
+
+def handleAdm (op : String) (c rs : Sexp) : Sexp :=
+  match acfg? c, rs.asList?.bind (·.mapM erec?) with
+  | some cfg, some ds =>
+    if op == "admid" then Sexp.ofNats (getAdmid cfg ds)
+    else match getCmt cfg ds with
+      | some v => Sexp.ofNats v
+      | none => .list [.atom "err", .atom "UnboundLocalError"]
+  | _, _ => bad
+
 def handle (req : Sexp) : Sexp :=
   match req with
+  | .list [.atom "admid", c, rs] => handleAdm "admid" c rs
+  | .list [.atom "cmt", c, rs] => handleAdm "cmt" c rs
   | .list [.atom op, c, rs] =>
     match cfg? c, rows? rs with
     | some cfg, some ds =>
